@@ -55,6 +55,11 @@ func H_C03_fma() {
 			e0 = ep
 		}
 	}
+	if er := vCfgOr("erange", 0); er > 0 && allFinite {
+		// exponents in a window far from the limits: the known finding's region is excluded by
+		// construction, every violation found here is a different one
+		vAssume(vAnd(vAnd(int(x.exp) >= -er, int(x.exp) <= er), vAnd(int(y.exp) >= -er, int(y.exp) <= er)))
+	}
 	xs, ys, us := snap(x), snap(y), snap(u)
 	if fx == fFinite && fy == fFinite {
 		// known finding: the intermediate product is formed with an int32 exponent, so it
